@@ -8,6 +8,7 @@ from fractions import Fraction
 import fw
 
 KNOWN = "comm-bandwidth-increase-ignored"
+KNOWN_ZERO = "exec-ignores-zero-availability"
 
 
 def fq(x):
@@ -52,7 +53,7 @@ def gen_case(rng):
     ns = rng.randint(1, 8)
     if dy:
         cand = [float(d) for d, _ in pts] + [float(d) + period for d, _ in pts if period > 0] + [rng.randint(0, 400) / 8.0 for _ in range(4)]
-        samples = sorted(set(rng.choice(cand) for _ in range(ns)))
+        samples = sorted(set(x for x in (rng.choice(cand) for _ in range(ns)) if x > 0)) or [0.125]
     else:
         samples = sorted(set(round(rng.randint(0, 40000) / 1000.0 + 0.0005, 4) for _ in range(ns)))
     return {"kind": kind, "period": repr(float(period)), "pts": pts, "peak": peak, "amount": repr(float(amount)), "samples": [repr(s) for s in samples]}
@@ -69,7 +70,7 @@ CORPUS = [
     {"kind": "link", "period": "8.0", "pts": [("0.0", "4e6"), ("2.0", "1e6")], "peak": "1e6", "amount": "20000000.0", "samples": ["1.0", "2.0", "7.5", "10.0"]},
     {"kind": "link", "period": "8.0", "pts": [("0.0", "1e6"), ("2.0", "4e6")], "peak": "1e6", "amount": "20000000.0", "samples": ["1.0", "2.0", "7.5", "10.0"]},   # the finding
     {"kind": "lat", "period": "5.0", "pts": [("1.0", "0.002"), ("3.0", "0.004")], "peak": "0.001", "amount": "0.0", "samples": ["0.5", "1.0", "3.0", "6.5"]},
-    {"kind": "host", "period": "4.0", "pts": [("0.0", "0.5"), ("4.0", "1.0")], "peak": "1e9", "amount": "6e9", "samples": ["0.0", "4.0", "8.0", "9.0"]},   # period = last date
+    {"kind": "host", "period": "4.0", "pts": [("0.0", "0.5"), ("4.0", "1.0")], "peak": "1e9", "amount": "6e9", "samples": ["0.125", "4.0", "8.0", "9.0"]},   # period = last date
 ]
 
 
@@ -122,9 +123,8 @@ def run(ctx):
             q.append(pre + [2] + fq(peak) + fq(init) + fq(c["amount"]))
             meta.append((c, line, "finish", None, t[1]))
             if c["kind"] == "link":       # what the code does: the flow stays capped by the bandwidth seen when it started
-                at0 = [float(x) for d, x in c["pts"] if float(d) == 0.0]
-                cap = at0[-1] if at0 else float(c["peak"])
-                q.append(model_prefix(c, iters, cap) + [2] + fq("1.0") + fq(repr(min(float(init), cap)) if not at0 else repr(cap)) + fq(c["amount"]))
+                cap = float(c["peak"])    # date-0 events of an API-built platform are applied by the first solve(), after the comm started
+                q.append(model_prefix(c, iters, cap) + [2] + fq("1.0") + fq(c["peak"]) + fq(c["amount"]))
                 meta.append((c, line, "finish-capped", None, t[1]))
         ctx.case(line, len(c["pts"]) >= 2, {"case": line[:300], "impl": o[:200]})
     ans = fw.run_model("c22", "run_c22", q) if q else []
@@ -151,7 +151,8 @@ def run(ctx):
             continue
         what = "%s: completion at %s, integration of the profile gives %s" % (line[:400], got, "never" if ref is None else "%.17g" % float(ref))
         if c["kind"] == "host":
-            ctx.fail("exec-finish-date", what, c)
+            zero = any(float(x) == 0.0 for d, x in c["pts"])
+            ctx.fail(KNOWN_ZERO if zero and float(got) >= 0 and ref is not None and Fraction(float(got)) < ref else "exec-finish-date", what, c)
         elif v.get("finish-capped", (False, None))[0]:
             ctx.fail(KNOWN, what + " (the flow stayed capped by the bandwidth of its start)", c)
         else:
@@ -162,6 +163,7 @@ def run(ctx):
                        "date 0. non-trivial = at least 2 points; distinct = distinct driver lines")
     ctx.cov["input_distribution"] = dist
     ctx.assumptions += ["deterministic profiles only (no STOCHASTIC, no LOOPAFTER); state (on/off) profiles are not explored",
+                        "no sample at date 0: events dated 0 are applied by the first solve() when the platform is built through the C++ API",
                         "completion dates compared with |impl - ref| <= 4e-9 * max(1, |ref|) (in the check), sampled values exactly",
                         "the lazy extension of Profile::event_list is abstracted as the concatenation of iterations"]
 
@@ -175,6 +177,7 @@ META = {
             "get_latency (exact) and exec/comm completion dates (integration of the piecewise-constant rate, by the extracted finish_date).",
     "note": "Integration is computed by the extracted model but not stated as a theorem (oracle only). Known finding " + KNOWN +
             ": a running CM02 comm keeps the bandwidth bound computed when it started, so a bandwidth increase is not integrated. "
+            "Known finding " + KNOWN_ZERO + ": a speed event of value 0 does not stall a running exec (it goes on at the previous rate). "
             "Trusted: Coq kernel, extraction, harness/res_c22.cpp, generator and tolerance comparison in checks/C22.py.",
     "technique": "Coq proof (induction on iterations, Q arithmetic) + extracted-model differential correspondence",
     "claimed": False,
